@@ -258,6 +258,10 @@ class Aspire:
                     if overwrite:
                         del h5_file["flow"]
                         self.save_flow(h5_file)
+                        # Checkpoints in the file were weighted under the
+                        # flow that has just been replaced
+                        if "checkpoint" in h5_file:
+                            del h5_file["checkpoint"]
                 else:
                     self.save_flow(h5_file)
         return history
@@ -490,6 +494,13 @@ class Aspire:
                 kwargs.setdefault("checkpoint_file_path", checkpoint_path)
                 kwargs.setdefault("checkpoint_every", checkpoint_every)
             with AspireFile(checkpoint_path, "a") as h5_file:
+                if (
+                    kwargs.get("resume_from") is None
+                    and "checkpoint" in h5_file
+                ):
+                    # A run that does not resume makes a checkpoint left by an
+                    # earlier run stale (other proposal, other sampler)
+                    del h5_file["checkpoint"]
                 if checkpoint_save_config:
                     if "aspire_config" in h5_file:
                         del h5_file["aspire_config"]
